@@ -142,13 +142,12 @@ func (su *suite) buildForkFamily(dir string, thorough bool) (*forkFamily, error)
 	}
 	// quick: the cheaper pairings (a case costs about one State.Add per transaction a node lacks)
 	cases := []forkCase{
-		{[]string{"A1", "B1"}, "pair", "quiet"},   // behind on page 1, peer on page 3
-		{[]string{"B3", "A3"}, "pair", "lossy"},   // first clock of page 2 against first clock of page 1, node 0 ahead
-		{[]string{"A2", "B3"}, "pair", "chaotic"}, // only the root in common, wide branch behind
-		{[]string{"A4", "B4"}, "pair", "quiet"},   // peer's part alone decodable, the symmetric difference not
-		{[]string{"B5", "A5"}, "pair", "quiet"},   // peer's part alone just beyond the capacity, node 0 ahead
-		{[]string{"B4", "B7"}, "pair", "lossy"},   // behind on page 2: the walk down takes more than one step
-		{[]string{"A5", "B5", "root"}, "line", "quiet"},
+		{[]string{"A1", "B1"}, "pair", "quiet"},         // behind on page 1, peer on page 3
+		{[]string{"B3", "A3"}, "pair", "lossy"},         // first clock of page 2 against first clock of page 1, node 0 ahead
+		{[]string{"A2", "B3"}, "pair", "chaotic"},       // only the root in common, wide branch behind
+		{[]string{"A4", "B4"}, "pair", "quiet"},         // peer's part alone decodable, the symmetric difference not
+		{[]string{"B4", "B7"}, "pair", "lossy"},         // behind on page 2: the walk down takes more than one step
+		{[]string{"B5", "A5", "root"}, "line", "quiet"}, // peer's part alone just beyond the capacity, node 0 ahead; a third node with the root only behind A5
 	}
 	if thorough {
 		specs = append(specs,
@@ -164,7 +163,7 @@ func (su *suite) buildForkFamily(dir string, thorough bool) (*forkFamily, error)
 			sideSpec{"C7", 444, dagx.Chain, 2*ps + 300 + j()},
 		)
 		cases = append(cases,
-			forkCase{[]string{"A1", "B6"}, "pair", "lossy"}, forkCase{[]string{"C8", "C9"}, "pair", "quiet"}, forkCase{[]string{"C9", "C8", "A4"}, "", ""},
+			forkCase{[]string{"B5", "A5"}, "pair", "quiet"}, forkCase{[]string{"A1", "B6"}, "pair", "lossy"}, forkCase{[]string{"C8", "C9"}, "pair", "quiet"}, forkCase{[]string{"C9", "C8", "A4"}, "", ""},
 			forkCase{[]string{"B1", "A1"}, "pair", "lossy"}, forkCase{[]string{"B6", "B1"}, "pair", "chaotic"},
 			forkCase{[]string{"A1", "B1", "root"}, "line", "quiet"}, forkCase{[]string{"A2", "B3", "B6"}, "triangle", ""},
 			forkCase{[]string{"A3", "B3", "A5"}, "triangle", "quiet"},
